@@ -29,3 +29,20 @@ Proof.
   apply seq_ext; [|reflexivity].
   destruct (refs && lm_hanging_first (rs_lanelet src_removal)); [apply src_hanging_is_model|reflexivity].
 Qed.
+
+Lemma erun_full_eq e s :
+  erun_full src_hanging (rs_lanelet src_removal) (rs_sign src_removal) (rs_light src_removal) (rs_inter src_removal) e s
+  = erun (rs_lanelet src_removal) (rs_sign src_removal) (rs_light src_removal) (rs_inter src_removal) e s.
+Proof.
+  destruct e as [k|]; [destruct k|]; try reflexivity.
+  unfold erun_full, erun. apply loop_ext. intros l s1. rewrite src_lanelets_full, src_lanelets. reflexivity.
+Qed.
+Theorem src_erase_full s :
+  eruns_full src_hanging (rs_lanelet src_removal) (rs_sign src_removal) (rs_light src_removal) (rs_inter src_removal)
+             (rs_erase src_removal) s = erase s.
+Proof.
+  rewrite <- src_erase. generalize (rs_erase src_removal) s. intro l.
+  induction l as [|e r IH]; intro s0; cbn [eruns_full eruns]; [reflexivity|].
+  apply seq_ext; [apply erun_full_eq|exact IH].
+Qed.
+
